@@ -682,7 +682,7 @@ def c06(tier):
 @prop("C14",
       functions=["gridPathCellsSize", "gridPathCells", "cubeRound", "ijkToCube", "cubeToIjk", "gridDistance", "cellToLocalIjk", "localIjkToCell"],
       bounds={"quick": "glue: any start/end words, distance 0-3, any distance error, any failing step; end to end: a=b and every neighbour pair of res 0-1",
-              "thorough": "end to end res 0-3"},
+              "thorough": "end to end res 0-2 (res 3: no verdict in 3400 s twice, removed)"},
       outside="contiguity and end point for distance >= 2: the floating-point interpolation kernel (symbolic x symbolic multiplication; probed, no verdict) - the main clause of C14 is NOT decided beyond distance 1",
       assumptions=["glue: gridDistance, cellToLocalIjk, localIjkToCell replaced by arbitrary-result stubs", "L-UP7 checked model in the end-to-end jobs"],
       stubs=["gridDistance, cellToLocalIjk, localIjkToCell (GLUE)"])
@@ -694,7 +694,7 @@ def c14(tier):
     LL.update({"localIjkToCell.%d" % i: 7 for i in range(1, 7)})
     # component: the local IJ chart the path is interpolated in is consistent (same harness as C09's IJ round trip)
     js.append(J("chart_ijrt_r1", "C09_dist.c", ["-DIJRT", "-DRES=1", "-DIJB=64", "-DUPB=(1<<10)"], unwind=3, us=dict(LL, **{"localIjkToCell.0": 3}), unit_defs=UP7_DEFS_CHK, est=60, mem="M", bound="local IJ chart: all origins of res 1, |i|,|j| <= 64"))
-    for r in (0, 1, 2, 3):
+    for r in (0, 1, 2):
         t = "quick" if r == 0 else "thorough"
         j = J("near_r%d" % r, "C14_path.c", ["-DNEAR", "-DRES=%d" % r, "-DUPB=(1<<10)"], unwind=r + 2, us=dict(LL, **{"localIjkToCell.0": r + 2, "gridPathCells.0": 3}), unit_defs=UP7_DEFS_CHK, est=300 + 300 * r, mem="M", tier=t, timeout=3400, core=(r <= 1),
               bound="a=b and all neighbour pairs of res %d" % r)
